@@ -100,7 +100,7 @@ structure SibsOut (f : Forest) (c : Nat) (g : Forest) (b : Bool) : Prop where
   merged : b = true → ∃ P N ps ns, f.prevSibling c = some P ∧ f.nextSibling c = some N ∧
     f.value? P = some (.text ps) ∧ f.value? N = some (.text ns) ∧
     g.value? P = some (.text (ps ++ ns)) ∧ g.isRoot P = false ∧ (g.ancestors P).contains c = false ∧
-    N ∉ g.allHandles
+    N ∉ g.allHandles ∧ f.prevSibling N = some c
 
 theorem sibsOut_refl {f : Forest} (hi : f.Inv) {c : Nat}
     (he : f.removeConsolidate (f.prevSibling c) (f.nextSibling c) = (f, false)) (hcut : f.CutOK c) :
@@ -234,7 +234,7 @@ theorem exists_sibsOut {f : Forest} (hi : f.Inv) {c : Nat} (hc : c ∈ f.allHand
       · exact Or.inr (Or.inr (Or.inr (Or.inr hx)))
     · -- merged
       intro _
-      refine ⟨P.handle, N.handle, ps, ns, eprev, enext, ?_, ?_, ?_, ?_, ?_, ?_⟩
+      refine ⟨P.handle, N.handle, ps, ns, eprev, enext, ?_, ?_, ?_, ?_, ?_, ?_, ?_⟩
       · rw [value?_of_loc lcP nd, hP]
       · rw [value?_of_loc lcN nd, hN]
       · rw [value?_of_loc lcgP ndg]; simp
@@ -272,6 +272,8 @@ theorem exists_sibsOut {f : Forest} (hi : f.Inv) {c : Nat} (hc : c ∈ f.allHand
         · exact hfN.left (by simp [hx])
         · exact hfN.left (by simp [hx])
         · exact hfN.right hx
+      · rw [prevSibling_of_loc_snoc lcN nd]
+        simp [hNn, hCn, lc.hk]
   · -- nothing happens
     have hres : f.removeConsolidate (f.prevSibling c) (f.nextSibling c) = (f, false) := by
       cases hr : f.removeConsolidate (f.prevSibling c) (f.nextSibling c) with
